@@ -7,6 +7,7 @@ require (
 	github.com/lestrrat-go/jwx/v2 v2.0.21
 	github.com/spiffe/go-spiffe/v2 v2.1.7
 	golang.org/x/crypto v0.24.0
+	k8s.io/apimachinery v0.26.9
 	k8s.io/utils v0.0.0-20230726121419-3b25d923346b
 )
 
@@ -27,7 +28,6 @@ require (
 	golang.org/x/exp v0.0.0-20231006140011-7918f672742d // indirect
 	golang.org/x/sys v0.21.0 // indirect
 	gopkg.in/inf.v0 v0.9.1 // indirect
-	k8s.io/apimachinery v0.26.9 // indirect
 )
 
 replace github.com/dapr/kit => /repo
